@@ -224,7 +224,7 @@ func (w *pWorld) doPush(l pLeg, s *pScn, cl, url string, ids map[string]string) 
 		for _, it := range s.Items {
 			args = append(args, refspecStr(it))
 		}
-		ctx, cancel := context.WithTimeout(context.Background(), 60*time.Second)
+		ctx, cancel := context.WithTimeout(context.Background(), opTimeout)
 		defer cancel()
 		c := exec.CommandContext(ctx, "git", args...)
 		c.Dir = cl
@@ -256,13 +256,13 @@ func (w *pWorld) doPush(l pLeg, s *pScn, cl, url string, ids map[string]string) 
 	if leaseHex != "" {
 		po.ForceWithLease = &git.ForceWithLease{RefName: "refs/heads/a", Hash: plumbing.NewHash(leaseHex)}
 	}
-	ctx, cancel := context.WithTimeout(context.Background(), 60*time.Second)
+	ctx, cancel := context.WithTimeout(context.Background(), opTimeout)
 	defer cancel()
 	done := make(chan error, 1)
 	go func() { done <- repo.PushContext(ctx, po) }()
 	select {
 	case err = <-done:
-	case <-time.After(70 * time.Second):
+	case <-time.After(opTimeout + 10*time.Second):
 		return "error:timeout", "go-git Push did not return"
 	}
 	if err == nil || errors.Is(err, git.NoErrAlreadyUpToDate) {
@@ -272,6 +272,17 @@ func (w *pWorld) doPush(l pLeg, s *pScn, cl, url string, ids map[string]string) 
 }
 
 func (w *pWorld) runPushLeg(s *pScn, l pLeg, useGit bool) ([]fDiff, map[string]any, bool, error) {
+	ds, c, ab, err := w.runPushLeg1(s, l, useGit)
+	if err == nil && len(ds) > 0 && strings.HasPrefix(ds[0].class, "client-error:timeout") {
+		old := opTimeout
+		opTimeout = 10 * old // a verdict must not depend on machine load: only a second overrun counts
+		ds, c, ab, err = w.runPushLeg1(s, l, useGit)
+		opTimeout = old
+	}
+	return ds, c, ab, err
+}
+
+func (w *pWorld) runPushLeg1(s *pScn, l pLeg, useGit bool) ([]fDiff, map[string]any, bool, error) {
 	base := gitcli.TempDir("push")
 	defer os.RemoveAll(base)
 	// the daemon serves w.base: remote repositories of daemon legs live there
